@@ -6,6 +6,7 @@ package main
 
 import (
 	"fmt"
+	"strings"
 	"sync"
 	"unicode"
 )
@@ -195,4 +196,26 @@ func uniLemma(name string, v uint64, arg, app string) string {
 		concl = fmt.Sprintf("(= %s %s)", app, arg)
 	}
 	return "(assert (=> " + cond + " " + concl + "))\n"
+}
+
+// unicodeFullSMT gives the complete definition of a predicate/function as one define-fun.
+func unicodeFullSMT(name string) string {
+	rs := uniRanges(name)
+	var sb strings.Builder
+	if _, ok := uniPreds[name]; ok {
+		sb.WriteString("(define-fun " + name + " ((r (_ BitVec 32))) Bool (or false")
+		for _, r := range rs {
+			sb.WriteString(" " + rangeCond(r))
+		}
+		sb.WriteString("))\n")
+		return sb.String()
+	}
+	sb.WriteString("(define-fun " + name + " ((r (_ BitVec 32))) (_ BitVec 32) ")
+	for _, r := range rs {
+		sb.WriteString("(ite " + rangeCond(r) + fmt.Sprintf(" (bvadd r #x%08x) ", uint32(r.delta)))
+	}
+	sb.WriteString("r")
+	sb.WriteString(strings.Repeat(")", len(rs)))
+	sb.WriteString(")\n")
+	return sb.String()
 }
